@@ -238,23 +238,34 @@ def mhtml_fallback_scope(repo, tier):
     import json
     import os
     import subprocess
-    oid = "C17/mhtml_extractor.py::_extract_from_mhtml/bounded#html-part-of-a-non-standard-archive-is-not-cut-inside-the-document.BOUNDED"
-    req = {"property": "C17", "obligation": oid, "repo": repo, "family": {"fn": "line_start_docs", "only": ["non-standard"]}}
-    try:
-        p = subprocess.run(["/venv/bin/python", os.path.join(os.path.dirname(os.path.dirname(os.path.abspath(__file__))), "replay", "run.py")],
-                           input=json.dumps(req), capture_output=True, text=True, timeout=300, env=dict(os.environ, VERIF_REPO=repo))
-        lines = [l for l in p.stdout.splitlines() if l.startswith("{")]
-        res = json.loads(lines[-1]) if lines else {"error": (p.stderr or p.stdout)[-500:]}
-    except Exception as e:  # noqa
-        res = {"error": str(e)}
-    if "error" in res or "crashed" in str(res.get("note", "")):
-        return {"obligations": [], "undecided": [{"obligation": oid, "why": "native scope could not run: " + str(res.get("error", res.get("note")))[:300]}]}
-    ok = not res.get("reproduced")
-    o = ground_obligation(oid, ok, res.get("note", "") if ok else f"{res.get('target')}: {json.dumps((res.get('inputs') or {}).get('markup'))[:200]} -> {str(res.get('observed'))[:200]}",
-                          "replay/C17.py", kind="bounded", backend="native-replay")
-    o["bounded"] = True
-    o["bound"] = "4 multi-line documents with `--` at a line start, as a header-less archive with one text/html part"
-    return {"obligations": [o]}
+    out = {"obligations": [], "undecided": []}
+    # round 6: second family -- lines in removed content that READ like a delimiter (ruler of dashes in a comment, `--x:` in a style
+    # sheet); fails on the library HEAD: recorded finding C17-mhtml-scan-ends-part-at-delimiter-like-line (proposed_fixes/C17_4.diff)
+    for oid, family, bound in (
+            ("C17/mhtml_extractor.py::_extract_from_mhtml/bounded#html-part-of-a-non-standard-archive-is-not-cut-inside-the-document.BOUNDED",
+             "line_start_docs", "4 multi-line documents with `--` at a line start, as a header-less archive with one text/html part"),
+            ("C17/mhtml_extractor.py::_extract_from_mhtml/bounded#delimiter-like-line-in-removed-content-does-not-end-the-part-of-a-non-standard-archive.BOUNDED",
+             "boundary_like_docs", "4 documents with a line of `--` + boundary characters inside a comment / script / style / noscript, same archive form")):
+        req = {"property": "C17", "obligation": oid, "repo": repo, "family": {"fn": family, "only": ["non-standard"]}}
+        try:
+            p = subprocess.run(["/venv/bin/python", os.path.join(os.path.dirname(os.path.dirname(os.path.abspath(__file__))), "replay", "run.py")],
+                               input=json.dumps(req), capture_output=True, text=True, timeout=300, env=dict(os.environ, VERIF_REPO=repo))
+            lines = [l for l in p.stdout.splitlines() if l.startswith("{")]
+            res = json.loads(lines[-1]) if lines else {"error": (p.stderr or p.stdout)[-500:]}
+        except Exception as e:  # noqa
+            res = {"error": str(e)}
+        if "error" in res or "crashed" in str(res.get("note", "")):
+            out["undecided"].append({"obligation": oid, "why": "native scope could not run: " + str(res.get("error", res.get("note")))[:300]})
+            continue
+        ok = not res.get("reproduced")
+        o = ground_obligation(oid, ok, res.get("note", "") if ok else f"{res.get('target')}: {json.dumps((res.get('inputs') or {}).get('markup'))[:200]} -> {str(res.get('observed'))[:200]}",
+                              "replay/C17.py", kind="bounded", backend="native-replay")
+        o["bounded"] = True
+        o["bound"] = bound
+        out["obligations"].append(o)
+    if not out["undecided"]:
+        del out["undecided"]
+    return out
 
 
 
